@@ -80,9 +80,9 @@ def gen(rnd, tier):
 def run(res, tier, seed):
     rnd = random.Random(seed * 31337 + 8)
     cases, dcases = gen(rnd, tier)
-    return D.run_family(res, "C08", "C08", cases, dcases,
+    return D.run_family(res, "C08", ["C08", "C08_stream"], cases, dcases,
                         rule="every RefTable entry (+alt) x successor classes, every control byte +-alt, space/NUL/ESC ESC/ESC/focus/blur, UTF-8 boundary scalars of every length incl. U+FFFD, random well-formed streams within one read (Spec evaluated on real output), mutated/malformed streams (model equality); distinct = distinct byte strings")
 
 
 def replay(res, path):
-    return D.replay_family(res, "C08", "C08", path)
+    return D.replay_family(res, "C08", ["C08", "C08_stream"], path)
